@@ -299,6 +299,24 @@ Definition resume (noise : nat) (c : cfg) (s : state) : option state :=
   | None => None
   end.
 
+(* two other ways a training script restarts:
+   - the seed network handed to the constructor is already in the mode of the interrupted run and NO train()/eval() call is
+     made between construction, load_state_dict and the forward pass;
+   - train()/eval() is called on the fresh wrapper BEFORE the checkpoint is loaded *)
+Definition with_training (b : bool) (c : cfg) : cfg :=
+  {| c_meth := c_meth c; c_pers := c_pers c; c_training := b; c_disc := c_disc c; c_hard := c_hard c;
+     c_gum := c_gum c; c_nos := c_nos c; c_temp := c_temp c |}.
+Definition resume_nomode (noise : nat) (c : cfg) (s : state) : option state :=
+  match load (save s) (fresh (with_training (training (tr s)) c)) with
+  | Some s' => Some (forward noise s')
+  | None => None
+  end.
+Definition resume_mode_first (noise : nat) (c : cfg) (s : state) : option state :=
+  match load (save s) (set_mode (training (tr s)) (fresh c)) with
+  | Some s' => Some (forward noise s')
+  | None => None
+  end.
+
 (* ---------------------------------------------------------------- decidable comparison (harness) *)
 Definition q_eqb (a b : Q) : bool := Qeq_bool a b.
 Definition ql_eqb := list_eqb q_eqb.
@@ -345,10 +363,10 @@ Definition run_case (c : cfg) (ops : list op) (noise : nat) :=
   (keys (meth s) (save s),
    map opt_view (tl (fold_left (fun acc o => acc ++ [step (last acc (fresh c)) o]) ops [fresh c])),
    (missing_keys (save s) (fresh c), unexpected_keys (save s) (fresh c)),
-   match resume noise c s with
-   | Some r => Some (obs_eqb (obs r) (obs orig))
-   | None => None
-   end,
+   map (fun o => match o with
+                 | Some r => Some (obs_eqb (obs r) (obs orig))
+                 | None => None
+                 end) [resume noise c s; resume_nomode noise c s; resume_mode_first noise c s],
    (map tnf_view (thetas orig), map (fun x => (qpair (fst x), qpair (snd x))) (snd (o_cost (obs orig))))).
 (* loading a checkpoint into a wrapper with a different structure (strictness of load) *)
 Definition run_load_other (c c2 : cfg) : list string * list string :=
